@@ -316,6 +316,8 @@ def main(argv):
     ap.add_argument("--replay")
     ap.add_argument("--no-lean", action="store_true", help="skip the Lean build (development only)")
     a = ap.parse_args(argv)
+    if a.replay:
+        a.replay = os.path.abspath(a.replay)
     pid = a.pid.upper()
     tier = "thorough" if a.tier == "thorough" else "quick"
     try:
